@@ -797,7 +797,10 @@ class H5Writer:
                 h5file[base]["Types"].create_group(entity_type_str)
 
             if as_str_if_uuid(uid) in h5file[base]["Types"][entity_type_str]:
-                entity_type.on_file = True
+                if not entity_type.on_file:
+                    # A type created in this session takes over a node left on file
+                    entity_type.on_file = True
+                    H5Writer.write_attributes(h5file, entity_type)
 
                 return h5file[base]["Types"][entity_type_str][as_str_if_uuid(uid)]
 
